@@ -40,6 +40,9 @@ CHECKS = {
  "C12": ("Boundary check against Python's own eval: generated call texts (operator trees over columns, int/float/str/True/False/None literals, nested recording calls with positional and keyword arguments, numpy ufuncs; + - * / **, unary signs, six comparisons; parentheses as Python needs them plus redundant ones; random whitespace) are evaluated as I(t), {t}, rec(t, k=..) through design_matrices and as Python expressions over the same names; columns, the argument logs of recording callables (values, keyword names, literal types, number of calls) and the term names (identical across whitespace variants, single spacing, tokens of the source, reads back through Python's ast as the same expression) are compared; pairs of texts with different Python ASTs must give two names, two terms and two correct columns.",
          "Python syntax outside the statement's list is not generated; whether redundant parentheses survive in names is not judged.",
          "runtime boundary monitor with Python eval as the executable reference model, recording callables, metamorphic whitespace variants"),
+ "C13": ("icontract post-conditions on Treatment / Sum .code_with_intercept / .code_without_intercept (shape, rank with the constant, indicator / zero-sum structure, reference row zero / omitted level -1, labels) that fire on every contrast matrix any workload or repository test produces; an exhaustive driver over level counts 1..12 x every reference / omitted level x string / integer / falsy levels x fresh and re-used encoding objects; boundary checks through design_matrices that C / T / S honour contrast, reference / omit and every permutation of up to 5 levels passed as levels=; relational coding-swap check (column space unchanged) on complete-factorial frames.",
+         "Exact 0/1/-1 matrices, so rank and equality are decided exactly; the swap check uses projection residuals (1e-7).",
+         "icontract post-conditions on the real encoding methods + exhaustive configuration driver + relational shadow executions"),
 }
 NOT_APPLICABLE = {}
 PENDING = [f"C{i:02d}" for i in range(1, 18) if f"C{i:02d}" not in CHECKS]
